@@ -11,9 +11,10 @@
 (* only printed where a deviation actually shaped the result.               *)
 (***************************************************************************)
 EXTENDS Server, Json
-CONSTANTS OpenDev, States, CmdU, Fam
+CONSTANTS OpenDev, States, CmdU, Fam, Relevant(_, _)   \* Relevant(S, cmd): pairs the family claims (see each MC module)
 VARIABLES S, step, op
 vars == <<S, step, op, devs>>
+AllRelevant(s, cmd) == TRUE
 
 ValJ(v) == IF v.ty = "hash" THEN [ty |-> "hash", exp |-> v.exp, h |-> {<<f, v.h[f]>> : f \in DOMAIN v.h}] ELSE v
 EntsJ(dbs) == UNION {{[db |-> i, k |-> k, v |-> ValJ(dbs[i][k])] : k \in DOMAIN dbs[i]} : i \in DOMAIN dbs}
@@ -30,7 +31,8 @@ Next == /\ step = 0
         /\ UNCHANGED devs
         /\ \E c \in DOMAIN S.conn, cmd \in CmdU :
              LET res == Apply(S, c, cmd)
-             IN  /\ S' = res.S
+             IN  /\ Relevant(S, cmd)
+                 /\ S' = res.S
                  /\ op' = [fam |-> Fam, dev |-> devs # {}, pre |-> StateJ(S),
                            steps |-> << [c |-> c, cmd |-> cmd, r |-> res.r, post |-> StateJ(res.S),
                                         dv |-> res.dv, rel |-> res.rel, tol |-> res.tol] >>]
